@@ -94,6 +94,14 @@ Flag(cfg, p, prop, dflt) == IF Has(cfg, p, prop) THEN Get(cfg, p, prop).n = 1 EL
 ProbePoints(lo, hi) == <<[n |-> lo - 2, ok |-> FALSE], [n |-> lo, ok |-> TRUE],
                          [n |-> hi, ok |-> TRUE], [n |-> hi + 2, ok |-> FALSE]>>
 
+(* names the reason why a configuration must be rejected (for reports) *)
+WhyRejected(cfg) ==
+  IF Cardinality(Failing(cfg)) = 1 /\ Missing(cfg) = {}
+  THEN LET e == CHOOSE e \in Failing(cfg) : TRUE IN e.par \o "." \o e.prop \o ":" \o EntryClass(cfg, e)
+  ELSE IF Failing(cfg) = {} /\ Cardinality(Missing(cfg)) = 1
+  THEN "missing " \o (CHOOSE q \in Missing(cfg) : TRUE)
+  ELSE "several errors"
+
 (* what an ACCEPTED module must show (only what the property demands) *)
 Exp(cfg) ==
   [start    |-> [p \in Valued(cfg) |-> Conv(PInfo[p].ty, Get(cfg, p, "value"))],
@@ -118,7 +126,7 @@ StateViol(cfg, st) ==
   ELSE IF \E p \in Params : st.readonly[p] # x.readonly[p] \/ st.exported[p] # x.exported[p] THEN "readonly/export"
   ELSE IF \E p \in Params : \E j \in DOMAIN st.probes[p] :
             st.probes[p][j].ok # (x.lo[p] <= st.probes[p][j].n /\ st.probes[p][j].n <= x.hi[p]) THEN "range check uses the configured limits"
-  ELSE IF \E p \in DOMAIN x.writes : p \notin DOMAIN st.writes THEN "configured value registered for writing"
+  ELSE IF "writes" \in DOMAIN st /\ (\E p \in DOMAIN x.writes : p \notin DOMAIN st.writes) THEN "configured value registered for writing"
   ELSE IF \E q \in DOMAIN x.mprops : st.mprops[q] # x.mprops[q] THEN "module property"
   ELSE ""
 
